@@ -1,5 +1,6 @@
 import Pixman.Lemmas.LifetimeCache
 import Pixman.Lemmas.LifetimeCells
+import Pixman.Lemmas.LifetimeGlyphBlocks
 import Pixman.Spec.Lifetime
 /-!
   C20 — image lifetime: resources released exactly once, when the last reference goes.
@@ -79,22 +80,145 @@ theorem apply_preserves_inv (h : Heap) (op : Op) (hI : Inv h) (hok : op.ok h = t
     exact hI.pres_cacheInsert key i hok'
   | cacheRemove key => exact hI.pres_cacheRemove key
 
-theorem step_preserves_inv (h : Heap) (op : Op) (hI : Inv h) : Inv (step h op).1 := by
-  unfold step
-  by_cases hok : op.ok h = true
-  · rw [if_pos hok]; exact apply_preserves_inv h op hI hok
-  · rw [if_neg hok]; exact hI
+/-- the block invariants: owning fields of every image (`InvB`), `glyph_t` / cache struct (`InvG`) -/
+def InvBlocks (h : Heap) : Prop := InvB h ∧ InvG h
 
-theorem run_preserves_inv' (h : Heap) (ops : List Op) (hI : Inv h) : Inv (run h ops).1 := by
-  induction ops generalizing h with
-  | nil => exact hI
-  | cons op ops ih =>
+theorem blocks_empty : InvBlocks Heap.empty := by
+  refine ⟨⟨?_, ?_⟩, ⟨rfl, ?_⟩⟩
+  · intro i hi; exact absurd hi (Nat.not_lt_zero i)
+  · intro i hi; exact absurd hi (Nat.not_lt_zero i)
+  · intro b; rfl
+
+/-- no operation touches the owning fields of an image other than by the setters of that image and
+    its own release, nor the `glyph_t` / cache blocks outside the cache operations -/
+theorem apply_preserves_blocks (h : Heap) (op : Op) (hI : Inv h) (hBG : InvBlocks h) (hok : op.ok h = true) :
+    InvBlocks (apply h op).1 := by
+  unfold Inv at hI
+  obtain ⟨hB, hG⟩ := hBG
+  cases op with
+  | createBits w ht own => exact ⟨hB.pres_createBits w ht own 1, hG.of_gfields (gfields_createBits ..)⟩
+  | createSolid => exact ⟨hB.pres_createSolid, hG.of_gfields rfl⟩
+  | createGradient k n =>
+    have hk : k = .linear ∨ k = .radial ∨ k = .conical := by simpa [Op.ok] using hok
+    have h1 := hB.pres_createGradient k n hk
+    have h2 := hG.of_gfields (gfields_createGradient h k n)
+    show InvBlocks (match createGradient h k n with
+      | (h, some id) => (h, Res.created id)
+      | (h, none) => (h, Res.null)).1
+    rcases hcg : createGradient h k n with ⟨h', _ | id⟩ <;> (rw [hcg] at h1 h2; exact ⟨h1, h2⟩)
+  | ref i =>
+    refine ⟨hB.pres_ref hI (by simpa [Op.ok] using hok), hG.of_gfields ?_⟩
+    show gfields (addExt (ref h i) i) = _
+    simp
+  | unref i =>
+    refine ⟨hB.pres_unref hI (by simpa [Op.ok] using hok), hG.of_gfields ?_⟩
+    show gfields (unref (dropExt h i) i).1 = _
+    simp
+  | setAlphaMap i m x y =>
+    refine ⟨?_, hG.of_gfields (gfields_setAlphaMap ..)⟩
+    cases m with
+    | none =>
+      have hok' : h.holds i = true := by simpa [Op.ok] using hok
+      exact hB.pres_setAlphaMap hI hok' none (by intro a ha; cases ha) x y
+    | some a =>
+      have hok' : h.holds i = true ∧ (h.holds a = true ∨ h.borrowed a = true) := by
+        simpa [Op.ok] using hok
+      refine hB.pres_setAlphaMap hI hok'.1 (some a) ?_ x y
+      intro b hb; cases hb
+      rcases hok'.2 with h1 | h1
+      · exact hI.holds_live h1
+      · exact hI.borrowed_live h1
+  | setTransform i t =>
+    exact ⟨hB.pres_setTransform hI (by simpa [Op.ok] using hok) t, hG.of_gfields (gfields_setTransform ..)⟩
+  | setFilter i f p =>
+    have hok' : h.holds i = true := by
+      simp only [Op.ok, Bool.and_eq_true] at hok
+      exact hok.1
+    exact ⟨hB.pres_setFilter hI hok' f p, hG.of_gfields (gfields_setFilter ..)⟩
+  | setClip32 i n =>
+    exact ⟨hB.pres_setClip32 hI (by simpa [Op.ok] using hok) n, hG.of_gfields (gfields_setClip32 ..)⟩
+  | setClip16 i n =>
+    exact ⟨hB.pres_setClip16 hI (by simpa [Op.ok] using hok) n, hG.of_gfields (gfields_setClip16 ..)⟩
+  | setDestroy i f d =>
+    refine ⟨hB.pres_setDestroy hI (by simpa [Op.ok] using hok) f d, hG.of_gfields ?_⟩
+    show gfields (setDestroy h i f d) = _
+    unfold setDestroy; simp
+  | setIndexed i p =>
+    refine ⟨hB.pres_setIndexed hI (by simpa [Op.ok] using hok) p, hG.of_gfields ?_⟩
+    show gfields (setIndexed h i p) = _
+    unfold setIndexed; simp
+  | cacheCreate => exact ⟨hB.local rfl rfl, pres_cacheCreate_G hG (by simpa [Op.ok] using hok)⟩
+  | cacheDestroy => exact pres_cacheDestroy_BG hI hB hG
+  | cacheFreeze => exact ⟨hB.pres_cacheFreeze, pres_cacheFreeze_G hG⟩
+  | cacheThaw => exact ⟨hB.pres_cacheThaw, pres_cacheThaw_G hG⟩
+  | cacheInsert key i => exact pres_cacheInsert_BG hB hG key i
+  | cacheRemove key => exact pres_cacheRemove_BG hI hB hG key
+
+/-- a call whose k-th allocation fails: creations, glyph insert, `set_transform`, `set_filter` leave
+    the heap as it was; a clip copy leaves the region broken with its old data freed (once) -/
+theorem applyFail_preserves (h : Heap) (k : Nat) (op : Op) (hI : Inv h) (hBG : InvBlocks h)
+    (hok : op.ok h = true) : Inv (applyFail h k op).1 ∧ InvBlocks (applyFail h k op).1 := by
+  unfold Inv at *
+  cases op with
+  | setClip32 i n =>
+    have hh : h.holds i = true := by simpa [Op.ok] using hok
+    exact ⟨hI.pres_breakClip hh, hBG.1.pres_breakClip hI hh, hBG.2.of_gfields (gfields_breakClip ..)⟩
+  | setClip16 i n =>
+    have hh : h.holds i = true := by simpa [Op.ok] using hok
+    cases n with
+    | none => exact ⟨hI, hBG⟩
+    | some n =>
+      show InvA (if 16 < n ∧ k = 1 then (h, Res.bool false) else (breakClip h i, Res.bool false)).1 zero none ∧
+        InvBlocks (if 16 < n ∧ k = 1 then (h, Res.bool false) else (breakClip h i, Res.bool false)).1
+      split
+      · exact ⟨hI, hBG⟩
+      · exact ⟨hI.pres_breakClip hh, hBG.1.pres_breakClip hI hh, hBG.2.of_gfields (gfields_breakClip ..)⟩
+  | _ => exact ⟨hI, hBG⟩
+
+theorem applyCall_preserves (h : Heap) (c : Call) (hI : Inv h) (hBG : InvBlocks h) (hok : c.op.ok h = true) :
+    Inv (applyCall h c).1 ∧ InvBlocks (applyCall h c).1 := by
+  cases c with
+  | plain op => exact ⟨apply_preserves_inv h op hI hok, apply_preserves_blocks h op hI hBG hok⟩
+  | failing k op =>
+    show Inv (if 1 ≤ k ∧ k ≤ allocsOf h op then applyFail h k op else apply h op).1 ∧
+      InvBlocks (if 1 ≤ k ∧ k ≤ allocsOf h op then applyFail h k op else apply h op).1
+    split
+    · exact applyFail_preserves h k op hI hBG hok
+    · exact ⟨apply_preserves_inv h op hI hok, apply_preserves_blocks h op hI hBG hok⟩
+
+theorem step_preserves_all (h : Heap) (c : Call) (hI : Inv h) (hBG : InvBlocks h) :
+    Inv (step h c).1 ∧ InvBlocks (step h c).1 := by
+  unfold step
+  by_cases hok : c.op.ok h = true
+  · rw [if_pos hok]; exact applyCall_preserves h c hI hBG hok
+  · rw [if_neg hok]; exact ⟨hI, hBG⟩
+
+theorem step_preserves_inv (h : Heap) (c : Call) (hI : Inv h) (hBG : InvBlocks h) : Inv (step h c).1 :=
+  (step_preserves_all h c hI hBG).1
+
+/-- every owned block invariant is preserved by every step (allocation failures included) -/
+theorem step_preserves_blocks (h : Heap) (c : Call) (hI : Inv h) (hBG : InvBlocks h) : InvBlocks (step h c).1 :=
+  (step_preserves_all h c hI hBG).2
+
+theorem run_preserves_all' (h : Heap) (cs : List Call) (hI : Inv h) (hBG : InvBlocks h) :
+    Inv (run h cs).1 ∧ InvBlocks (run h cs).1 := by
+  induction cs generalizing h with
+  | nil => exact ⟨hI, hBG⟩
+  | cons c cs ih =>
     unfold run
-    exact ih (step h op).1 (step_preserves_inv h op hI)
+    have := step_preserves_all h c hI hBG
+    exact ih (step h c).1 this.1 this.2
 
 /-- every state reachable by any history satisfies the invariant -/
-theorem run_preserves_inv (ops : List Op) : Inv (run Heap.empty ops).1 :=
-  run_preserves_inv' _ ops inv_empty
+theorem run_preserves_inv (cs : List Call) : Inv (run Heap.empty cs).1 :=
+  (run_preserves_all' _ cs inv_empty blocks_empty).1
+
+/-- ... and the block invariants -/
+theorem run_preserves_blocks (cs : List Call) : InvBlocks (run Heap.empty cs).1 :=
+  (run_preserves_all' _ cs inv_empty blocks_empty).2
+
+/-- histories without allocation failures -/
+def calls (ops : List Op) : List Call := ops.map .plain
 
 /-! ### L1 — the count is exactly the number of references -/
 
@@ -208,12 +332,12 @@ theorem L3_alpha_count_bounds_parents (h : Heap) (hI : Inv h) (m : Nat) (hm : Al
 /-! ### L4 — no use after free, no leak -/
 
 /-- (L4) no operation of any history dereferences an image struct that is not allocated -/
-theorem L4_no_use_after_free (ops : List Op) : (run Heap.empty ops).1.uaf = 0 :=
-  (run_preserves_inv ops).uaf
+theorem L4_no_use_after_free (cs : List Call) : (run Heap.empty cs).1.uaf = 0 :=
+  (run_preserves_inv cs).uaf
 
 /-- (L4) `_pixman_image_fini` never recurses deeper than image -> alpha map -/
-theorem L4_recursion_budget_suffices (ops : List Op) : (run Heap.empty ops).1.stuck = 0 :=
-  (run_preserves_inv ops).stuck
+theorem L4_recursion_budget_suffices (cs : List Call) : (run Heap.empty cs).1.stuck = 0 :=
+  (run_preserves_inv cs).stuck
 
 /-- (L4) once the client has dropped every reference and destroyed the cache, every image struct
     has been freed -/
@@ -242,32 +366,123 @@ theorem cache_copy_is_private (h : Heap) (hI : Inv h) (c : Cache) (hc : h.cache 
   refine ⟨h1.2, (L2_live_iff_referenced h hI g.image h1.1).2 ?_⟩
   exact Or.inr (Or.inr ⟨c, g, hc, hg, rfl⟩)
 
-/-! ### L2, owned buffers — per image (PARTIAL: not lifted to histories)
+/-! ### L2 / L4, owned buffers — every block freed at most once, and exactly once at the end -/
 
-  The statements below are about one image record.  What is missing for the full-strength claim
-  "in every reachable state every block ever handed out was freed exactly once, or is the one its
-  field points to" is the induction over histories showing that no operation touches the owning
-  fields of an image other than the setters of that image and its own release (a frame argument
-  over all operations, not done).  The correspondence check covers it empirically: the exact table
-  of library blocks is compared with the model's `liveBlocks` after every call. -/
+/-- the owning fields of an image record -/
+def cellsOf (im : Image) : List Cell := [im.freeMe, im.transform, im.filterParams, im.clipData, im.stops]
 
-/-- (L2, partial) when the last reference goes, every block the image still owns is freed, once;
-    blocks replaced earlier were freed once when they were replaced: nothing is left -/
-theorem L2_release_frees_owned_blocks_partial (im : Image) (h : im.cellsOk) :
-    im.fin.cellsDead ∧ (im.freed = 0 → im.fin.liveBlocks = 0) := by
-  refine ⟨Image.cellsDead_fin h, fun hf => ?_⟩
-  exact Image.liveBlocks_dead (Image.cellsDead_fin h) (by simp [hf])
+theorem Cell.ok_frees_le {c : Cell} (h : c.ok) (g : Nat) : c.frees g ≤ 1 := by
+  by_cases hg : g < c.allocated
+  · rw [h.2.1 g hg]; split <;> omega
+  · rw [h.2.2 g (by omega)]; omega
 
-/-- (L2, partial) the three ways a setter replaces an owned buffer keep "exactly the current block
-    is unfreed": `free (old); p = NULL` (identity transform, one-rectangle clip),
-    `free (old); p = malloc ()` (filter parameters, clip data), `p = malloc ()` into an empty field -/
-theorem L2_setter_frees_old_buffer_once_partial (c : Cell) (h : c.ok) :
-    c.free.clear.ok ∧ c.free.alloc.ok ∧ (c.ptr = none → c.alloc.ok) :=
-  ⟨Cell.ok_free_clear h, Cell.ok_free_alloc h, Cell.ok_alloc h⟩
+theorem Cell.dead_frees_le {c : Cell} (h : c.dead) (g : Nat) : c.frees g ≤ 1 := by
+  by_cases hg : g < c.allocated
+  · rw [h.1 g hg]; omega
+  · rw [h.2 g (by omega)]; omega
 
-/-- non-vacuity: a field that went through alloc, replace, clear -/
-example : (Cell.alloc {}).free.alloc.free.clear.ok :=
-  Cell.ok_free_clear (Cell.ok_free_alloc (Cell.ok_alloc Cell.ok_empty rfl))
+/-- (L2) in every reachable state, no block of any owning field of any image (pixel buffer,
+    transform, filter parameters, clip data, gradient stops), no `glyph_t` block and no cache
+    struct has been freed more than once; a block never handed out has never been freed -/
+theorem L2_blocks_freed_at_most_once (cs : List Call) (i : Nat) (hi : i < (run Heap.empty cs).1.nimg) :
+    (∀ c, c ∈ cellsOf ((run Heap.empty cs).1.img i) → ∀ g, c.frees g ≤ 1 ∧ (c.allocated ≤ g → c.frees g = 0)) ∧
+    (∀ b, (run Heap.empty cs).1.glyphFrees b ≤ 1 ∧
+          ((run Heap.empty cs).1.glyphsMade ≤ b → (run Heap.empty cs).1.glyphFrees b = 0)) ∧
+    (run Heap.empty cs).1.cachesFreed ≤ (run Heap.empty cs).1.cachesMade := by
+  obtain ⟨hB, hG⟩ := run_preserves_blocks cs
+  generalize (run Heap.empty cs).1 = h at *
+  refine ⟨?_, ?_, ?_⟩
+  · intro c hc g
+    by_cases hf : (h.img i).freed = 0
+    · have hk := hB.live i hi hf
+      simp only [cellsOf, List.mem_cons, List.mem_nil_iff, or_false] at hc
+      rcases hc with e | e | e | e | e <;> subst e
+      · exact ⟨Cell.ok_frees_le hk.freeMe g, hk.freeMe.2.2 g⟩
+      · exact ⟨Cell.ok_frees_le hk.transform g, hk.transform.2.2 g⟩
+      · exact ⟨Cell.ok_frees_le hk.filterParams g, hk.filterParams.2.2 g⟩
+      · exact ⟨Cell.ok_frees_le hk.clipData g, hk.clipData.2.2 g⟩
+      · exact ⟨Cell.ok_frees_le hk.stops g, hk.stops.2.2 g⟩
+    · have hk := hB.dead i hi hf
+      simp only [cellsOf, List.mem_cons, List.mem_nil_iff, or_false] at hc
+      rcases hc with e | e | e | e | e <;> subst e
+      · exact ⟨Cell.dead_frees_le hk.freeMe g, hk.freeMe.2 g⟩
+      · exact ⟨Cell.dead_frees_le hk.transform g, hk.transform.2 g⟩
+      · exact ⟨Cell.dead_frees_le hk.filterParams g, hk.filterParams.2 g⟩
+      · exact ⟨Cell.dead_frees_le hk.clipData g, hk.clipData.2 g⟩
+      · exact ⟨Cell.dead_frees_le hk.stops g, hk.stops.2 g⟩
+  · intro b
+    have := hG.gcount b
+    constructor
+    · split at this <;> omega
+    · intro hb; rw [if_neg (by omega)] at this; omega
+  · have := hG.cstruct; omega
+
+/-- (L2) while an image is allocated, each owning field has exactly one unfreed block — the one it
+    points to — and every block it replaced earlier was freed exactly once (when it was replaced) -/
+theorem L2_blocks_of_allocated_image (cs : List Call) (i : Nat) (ha : Allocated (run Heap.empty cs).1 i) :
+    ∀ c, c ∈ cellsOf ((run Heap.empty cs).1.img i) → ∀ g, g < c.allocated →
+      c.frees g = if c.ptr = some g then 0 else 1 := by
+  have hk := (run_preserves_blocks cs).1.live i ha.1 ha.2
+  intro c hc g hg
+  simp only [cellsOf, List.mem_cons, List.mem_nil_iff, or_false] at hc
+  rcases hc with e | e | e | e | e <;> subst e
+  · exact hk.freeMe.2.1 g hg
+  · exact hk.transform.2.1 g hg
+  · exact hk.filterParams.2.1 g hg
+  · exact hk.clipData.2.1 g hg
+  · exact hk.stops.2.1 g hg
+
+/-- (L2) once an image has been released, every block any of its owning fields ever pointed to has
+    been freed exactly once -/
+theorem L2_blocks_of_released_image (cs : List Call) (i : Nat) (hi : i < (run Heap.empty cs).1.nimg)
+    (hf : ((run Heap.empty cs).1.img i).freed ≠ 0) :
+    ∀ c, c ∈ cellsOf ((run Heap.empty cs).1.img i) → ∀ g, g < c.allocated → c.frees g = 1 := by
+  have hk := (run_preserves_blocks cs).1.dead i hi hf
+  intro c hc g hg
+  simp only [cellsOf, List.mem_cons, List.mem_nil_iff, or_false] at hc
+  rcases hc with e | e | e | e | e <;> subst e
+  · exact hk.freeMe.1 g hg
+  · exact hk.transform.1 g hg
+  · exact hk.filterParams.1 g hg
+  · exact hk.clipData.1 g hg
+  · exact hk.stops.1 g hg
+
+theorem sum_map_zero (f : Nat → Int) (n : Nat) (hf : ∀ j, j < n → f j = 0) :
+    ((List.range n).map f).sum = 0 := by
+  induction n with
+  | zero => rfl
+  | succ n ih =>
+    rw [List.range_succ, List.map_append, List.sum_append, ih (fun j hj => hf j (by omega))]
+    simp [hf n (by omega)]
+
+/-- (L4) a history that ends with every client reference dropped and the cache destroyed has freed
+    every block it ever allocated exactly once: image structs, every block of every owning field,
+    every `glyph_t`, every cache struct — the census of live blocks is 0 -/
+theorem L4_all_blocks_freed_at_end (cs : List Call)
+    (hext : ∀ i, (run Heap.empty cs).1.ext i = 0) (hc : (run Heap.empty cs).1.cache = none) :
+    (∀ i, i < (run Heap.empty cs).1.nimg → ((run Heap.empty cs).1.img i).freed = 1 ∧
+        ∀ c, c ∈ cellsOf ((run Heap.empty cs).1.img i) → ∀ g, g < c.allocated → c.frees g = 1) ∧
+    (∀ b, b < (run Heap.empty cs).1.glyphsMade → (run Heap.empty cs).1.glyphFrees b = 1) ∧
+    (run Heap.empty cs).1.cachesFreed = (run Heap.empty cs).1.cachesMade ∧
+    (run Heap.empty cs).1.liveBlocks = 0 := by
+  have hI := run_preserves_inv cs
+  obtain ⟨hB, hG⟩ := run_preserves_blocks cs
+  have hrel := fun i hi => L2_blocks_of_released_image cs i hi
+  generalize (run Heap.empty cs).1 = h at *
+  have hfreed : ∀ i, i < h.nimg → (h.img i).freed = 1 := fun i hi => L4_no_leak h hI hext hc i hi
+  have hg1 : ∀ b, b < h.glyphsMade → h.glyphFrees b = 1 := by
+    intro b hb
+    have := hG.gcount b
+    unfold entriesOf at this
+    rw [hc, if_pos hb] at this
+    simpa using this
+  have hcs : h.cachesFreed = h.cachesMade := by
+    have := hG.cstruct; rw [hc] at this; simpa using this.symm
+  refine ⟨fun i hi => ⟨hfreed i hi, hrel i hi (by rw [hfreed i hi]; omega)⟩, hg1, hcs, ?_⟩
+  unfold Heap.liveBlocks
+  rw [sum_map_zero _ _ (fun i hi => Image.liveBlocks_dead (hB.dead i hi (by rw [hfreed i hi]; omega)) (hfreed i hi)),
+    sum_map_const_one h.glyphFrees h.glyphsMade hg1, hcs]
+  omega
 
 /-! ### non-vacuity: concrete histories (evaluated by the kernel) -/
 
@@ -277,47 +492,63 @@ def demo : List Op :=
   [.createBits 2 2 true, .createBits 1 1 true, .setAlphaMap 0 (some 1) 1 2, .setDestroy 0 true 7,
    .unref 1, .setTransform 0 (some 3), .unref 0]
 
-example : (run Heap.empty demo).2 =
+example : (run Heap.empty (calls demo)).2 =
     [.created 0, .created 1, .unit, .unit, .bool false, .bool true, .bool true] := by decide
-example : ((run Heap.empty demo).1.img 0).freed = 1 ∧ ((run Heap.empty demo).1.img 1).freed = 1 ∧
-    (run Heap.empty demo).1.fired = [(0, 7)] := by decide
+example : ((run Heap.empty (calls demo)).1.img 0).freed = 1 ∧ ((run Heap.empty (calls demo)).1.img 1).freed = 1 ∧
+    (run Heap.empty (calls demo)).1.fired = [(0, 7)] := by decide
 /-- before the last unref: L1 has a non-trivial instance (count 1 = 0 client + 1 parent) -/
-example : Allocated (run Heap.empty (demo.take 5)).1 1 ∧ (run Heap.empty (demo.take 5)).1.ext 1 = 0 ∧
-    parents (run Heap.empty (demo.take 5)).1 1 = 1 ∧ ((run Heap.empty (demo.take 5)).1.img 1).refCount = 1 := by
+example : Allocated (run Heap.empty (calls (demo.take 5))).1 1 ∧ (run Heap.empty (calls (demo.take 5))).1.ext 1 = 0 ∧
+    parents (run Heap.empty (calls (demo.take 5))).1 1 = 1 ∧ ((run Heap.empty (calls (demo.take 5))).1.img 1).refCount = 1 := by
   decide
 /-- self attachment and chains are refused -/
 def demo2 : List Op :=
   [.createBits 2 2 true, .createBits 1 1 true, .createBits 1 1 true, .setAlphaMap 0 (some 0) 0 0,
    .setAlphaMap 0 (some 1) 0 0, .setAlphaMap 1 (some 2) 0 0, .setAlphaMap 2 (some 0) 0 0]
-example : ((run Heap.empty demo2).1.img 0).alphaMap = some 1 ∧ ((run Heap.empty demo2).1.img 1).alphaMap = none ∧
-    ((run Heap.empty demo2).1.img 2).alphaMap = none := by decide
+example : ((run Heap.empty (calls demo2)).1.img 0).alphaMap = some 1 ∧ ((run Heap.empty (calls demo2)).1.img 1).alphaMap = none ∧
+    ((run Heap.empty (calls demo2)).1.img 2).alphaMap = none := by decide
 /-- re-attaching the SAME map through the parent, after the client dropped its own reference to the
     map (seeded C20-m1): the call is made (borrowed), only the origin moves, the map stays allocated
     with the one reference its parent holds, no callback fires; everything goes with the parent -/
 def demo3 : List Op :=
   [.createBits 2 2 true, .createBits 1 1 true, .setDestroy 1 true 9, .setAlphaMap 0 (some 1) 1 2,
    .unref 1, .setAlphaMap 0 (some 1) 5 (-3), .unref 0]
-example : (run Heap.empty demo3).2 =
+example : (run Heap.empty (calls demo3)).2 =
     [.created 0, .created 1, .unit, .unit, .bool false, .unit, .bool true] := by decide
-example : Allocated (run Heap.empty (demo3.take 6)).1 1 ∧
-    ((run Heap.empty (demo3.take 6)).1.img 1).refCount = 1 ∧
-    ((run Heap.empty (demo3.take 6)).1.img 0).alphaX = 5 ∧ ((run Heap.empty (demo3.take 6)).1.img 0).alphaY = -3 ∧
-    (run Heap.empty (demo3.take 6)).1.fired = [] ∧ (run Heap.empty demo3).1.fired = [(1, 9)] ∧
-    ((run Heap.empty demo3).1.img 1).freed = 1 := by decide
+example : Allocated (run Heap.empty (calls (demo3.take 6))).1 1 ∧
+    ((run Heap.empty (calls (demo3.take 6))).1.img 1).refCount = 1 ∧
+    ((run Heap.empty (calls (demo3.take 6))).1.img 0).alphaX = 5 ∧ ((run Heap.empty (calls (demo3.take 6))).1.img 0).alphaY = -3 ∧
+    (run Heap.empty (calls (demo3.take 6))).1.fired = [] ∧ (run Heap.empty (calls demo3)).1.fired = [(1, 9)] ∧
+    ((run Heap.empty (calls demo3)).1.img 1).freed = 1 := by decide
 /-- a glyph-cache copy (image 1 here) is not borrowable, and neither is a map of nobody -/
-example : (run Heap.empty [.createBits 2 2 true, .cacheCreate, .cacheFreeze, .cacheInsert 0 0,
-    .setAlphaMap 0 (some 1) 0 0]).2 = [.created 0, .unit, .unit, .bool true, .refused] := by decide
+example : (run Heap.empty (calls [.createBits 2 2 true, .cacheCreate, .cacheFreeze, .cacheInsert 0 0,
+    .setAlphaMap 0 (some 1) 0 0])).2 = [.created 0, .unit, .unit, .bool true, .refused] := by decide
 
 /-- the ownership guard is not vacuous: a client without a reference makes no call -/
-example : (run Heap.empty [.createSolid, .unref 0, .unref 0]).2 = [.created 0, .bool true, .refused] := by
+example : (run Heap.empty (calls [.createSolid, .unref 0, .unref 0])).2 = [.created 0, .bool true, .refused] := by
   decide
 
 /-- Repaired defect S1 (d80eb11): `pixman_image_set_indexed` on a gradient used to overwrite
     `gradient.stops`; now it returns for non-bits images: after the last unref the stops array has
     been freed exactly once and no foreign pointer was passed to `free ()`. -/
 def demoS1 : List Op := [.createGradient .linear 2, .setIndexed 0 (some 1), .unref 0]
-example : (run Heap.empty demoS1).2 = [.created 0, .unit, .bool true] ∧
-    ((run Heap.empty demoS1).1.img 0).badFrees = 0 ∧ ((run Heap.empty demoS1).1.img 0).stops.frees 0 = 1 := by
+example : (run Heap.empty (calls demoS1)).2 = [.created 0, .unit, .bool true] ∧
+    ((run Heap.empty (calls demoS1)).1.img 0).stops.frees 0 = 1 ∧ (run Heap.empty (calls demoS1)).1.liveBlocks = 0 := by
+  decide
+
+/-- allocation failures inside calls: the failing `set_filter` returns FALSE and keeps the old block,
+    the failing clip copy leaves the region broken (old data freed once), the failing creation
+    returns NULL; at the end every block has been freed exactly once -/
+def demo4 : List Call :=
+  [.plain (.createBits 2 2 true), .plain (.setFilter 0 5 (some [65536, 65536, 65536])),
+   .failing 1 (.setFilter 0 5 (some [65536, 65536, 65536])), .plain (.setClip32 0 (some 3)),
+   .failing 1 (.setClip32 0 (some 5)), .plain (.setClip32 0 (some 2)), .failing 2 (.createBits 1 1 true),
+   .failing 1 (.setTransform 0 (some 2)), .plain (.unref 0)]
+example : (run Heap.empty demo4).2 =
+    [.created 0, .bool true, .bool false, .bool true, .bool false, .bool true, .null, .bool false, .bool true] ∧
+    (run Heap.empty demo4).1.liveBlocks = 0 ∧
+    ((run Heap.empty demo4).1.img 0).filterParams.allocated = 1 ∧
+    ((run Heap.empty demo4).1.img 0).clipData.allocated = 2 ∧
+    ((run Heap.empty demo4).1.img 0).clipData.frees 0 = 1 ∧ ((run Heap.empty demo4).1.img 0).clipData.frees 1 = 1 := by
   decide
 
 end Pixman.Props.C20
